@@ -885,3 +885,88 @@ def thread_known_discriminants(doc):
                 changed = True
     doc.setdefault('meta', {})['threaded_jumps'] = n
     return doc
+
+
+# ======================================================================================================================
+# N3d `it.for_each(|x| body)` is `for x in it { body }`: the call is replaced by the loop (header: `it.next()`, branch on
+#     Some/None, closure body inlined, back edge), so that the body's effects are visible at MIR level like those of a `for`.
+def expand_for_each(doc):
+    bodies = doc['bodies']
+    by_key = {b['key']: b for b in bodies}
+    crate = (doc.get('meta') or {}).get('crate', 'hpke')
+    n = 0
+    for b in bodies:
+        blocks = b['blocks']
+        L = b['locals']
+        for bi in range(len(blocks)):
+            blk = blocks[bi]
+            t = blk['term']
+            if t.get('k') != 'call' or blk.get('cleanup') or t.get('target') is None or len(t.get('args', [])) != 2:
+                continue
+            fn = (t.get('func') or {}).get('fn') or {}
+            if fn.get('path') != 'core::iter::Iterator::for_each' or fn.get('local'):
+                continue
+            itop, fop = t['args']
+            if itop.get('k') != 'move' or itop['place']['p']:
+                continue
+            app = _applied(b, by_key, fop)
+            if app is None or app[0] != 'closure':
+                continue
+            ck = app[1]
+            cb = by_key[ck]
+            if cb['arg_count'] != 2:
+                continue
+            item_ty = cb['locals'][2]['ty']
+            env_ty = cb['locals'][1]['ty']
+            it_ty = t['arg_tys'][0]
+            line = t.get('line')
+            il = itop['place']['l']
+
+            def new_local(ty):
+                L.append({'ty': ty, 'ty_raw': ty, 'name': None, 'mut': True, 'synthetic': True})
+                return len(L) - 1
+
+            def mv(l):
+                return {'k': 'move', 'place': {'l': l, 'p': []}}
+
+            def asg(place, rv):
+                return {'k': 'assign', 'place': place, 'rv': rv, 'line': line, 'exp': False, 'syn': 'for_each'}
+            ref_l = new_local('&mut ' + it_ty)
+            nx_l = new_local('core::option::Option<%s>' % item_ty)
+            d_l = new_local('isize')
+            x_l = new_local(item_ty)
+            u_l = new_local('()')
+            base = len(blocks)
+            H, S, B, X = base, base + 1, base + 2, base + 3
+            blk['term'] = {'k': 'goto', 'target': H, 'line': line, 'syn': 'for_each'}
+            nfn = {'path': 'core::iter::Iterator::next', 'path_args': '<%s as core::iter::Iterator>::next' % it_ty, 'key': 'core::iter::Iterator::next',
+                   'crate': 'core', 'local': False, 'name': 'next', 'generic_args': [it_ty], 'def_kind': 'AssocFn', 'trait': 'core::iter::Iterator', 'self_ty': it_ty,
+                   'resolved': {'path': 'core::iter::Iterator::next', 'key': 'core::iter::Iterator::next', 'local': False, 'crate': 'core', 'kind': 'item', 'desc': 'item'}}
+            blocks.append({'cleanup': False, 'syn': 'for_each',
+                           'stmts': [asg({'l': ref_l, 'p': []}, {'k': 'ref', 'mut': True, 'fake': False, 'place': {'l': il, 'p': []}})],
+                           'term': {'k': 'call', 'func': {'k': 'const', 'ty': 'fn', 'text': nfn['path_args'], 'fn': nfn}, 'args': [mv(ref_l)], 'arg_tys': ['&mut ' + it_ty],
+                                    'dest': {'l': nx_l, 'p': []}, 'dest_ty': 'core::option::Option<%s>' % item_ty, 'target': S, 'unwind': t.get('unwind', 'continue'),
+                                    'source': 'Normal', 'line': line, 'fn_line': line, 'exp': False, 'syn': 'for_each'}})
+            blocks.append({'cleanup': False, 'syn': 'for_each',
+                           'stmts': [asg({'l': d_l, 'p': []}, {'k': 'discriminant', 'place': {'l': nx_l, 'p': []}})],
+                           'term': {'k': 'switch', 'discr': mv(d_l), 'discr_ty': 'isize', 'targets': [[1, B]], 'otherwise': X, 'line': line, 'exp': False, 'syn': 'for_each'}})
+            envop = app[2]
+            bst = [asg({'l': x_l, 'p': []}, {'k': 'use', 'op': {'k': 'move', 'place': {'l': nx_l, 'p': [{'downcast': 'Some', 'v': 1}, {'f': '0', 'i': 0, 'ty': item_ty, 'adt': 'core::option::Option'}]}}})]
+            if env_ty.startswith('&') and envop.get('k') == 'move':
+                e_l = new_local(env_ty)
+                bst.append(asg({'l': e_l, 'p': []}, {'k': 'ref', 'mut': env_ty.startswith('&mut'), 'fake': False, 'place': envop['place']}))
+                envop = mv(e_l)
+            elif envop.get('k') == 'move':
+                envop = {'k': 'copy', 'place': envop['place']}       # the closure value is used once per iteration
+            cfn = {'path': ck, 'path_args': ck, 'key': ck, 'crate': crate, 'local': True, 'name': ck.rsplit('::', 1)[-1], 'generic_args': [], 'def_kind': 'Closure',
+                   'resolved': {'path': ck, 'key': ck, 'local': True, 'crate': crate, 'kind': 'closure', 'desc': 'item'}}
+            blocks.append({'cleanup': False, 'syn': 'for_each', 'stmts': bst,
+                           'term': {'k': 'call', 'func': {'k': 'const', 'ty': 'closure', 'text': ck, 'fn': cfn}, 'args': [envop, mv(x_l)], 'arg_tys': [env_ty, item_ty],
+                                    'dest': {'l': u_l, 'p': []}, 'dest_ty': '()', 'target': H, 'unwind': t.get('unwind', 'continue'), 'source': 'Normal',
+                                    'line': line, 'fn_line': line, 'exp': False, 'syn': 'for_each'}})
+            blocks.append({'cleanup': False, 'syn': 'for_each', 'stmts': [asg(t['dest'], {'k': 'use', 'op': {'k': 'const', 'ty': '()', 'text': '()', 'zst': True}})],
+                           'term': {'k': 'goto', 'target': t['target'], 'line': line}})
+            inline_call(b, B, cb, doc)
+            n += 1
+    doc.setdefault('meta', {})['expanded_for_each'] = n
+    return doc
